@@ -340,6 +340,7 @@ class EvalFunc:
         self.trigger = []
         self.trigger_service = set()
         self.has_closure = False
+        self.own_cells = set()
         self.async_func = async_func
 
     def get_name(self):
@@ -673,6 +674,7 @@ class EvalFunc:
             if var_name in self.local_names and var_name not in nonlocal_names:
                 if self.has_closure:
                     self.local_sym_table[var_name] = EvalLocalVar(var_name)
+                    self.own_cells.add(var_name)
                 continue
 
             if var_name in nonlocal_names:
@@ -766,10 +768,12 @@ class EvalFunc:
         for name, value in self.local_sym_table.items():
             if name in sym_table:
                 sym_table[name] = EvalLocalVar(name, value=sym_table[name])
-            elif value.is_defined():
-                sym_table[name] = value
-            else:
+            elif name in self.own_cells:
+                # a local of this function: a fresh cell for every activation
                 sym_table[name] = EvalLocalVar(name)
+            else:
+                # captured from an enclosing activation: shared, whether or not it is bound yet
+                sym_table[name] = value
         if ast_ctx.global_ctx != self.global_ctx:
             #
             # switch to the global symbol table in the global context
